@@ -708,6 +708,10 @@ class HtpasswdFile(_CommonFile):
             to prevent ambiguity with the dictionary method.
             The old alias was removed in Passlib 1.8.
         """
+        if isinstance(password, str):
+            # NOTE: same encoding check_password() uses, otherwise a non-ascii password
+            #       set through a non-utf8 file object could never be verified.
+            password = password.encode(self.encoding)
         hash = self.context.hash(password)
         return self.set_hash(user, hash)
 
